@@ -101,6 +101,17 @@ type runner struct {
 	mu       sync.Mutex
 	pendings []pending
 	counts   map[string]int
+	pairs    map[string]bool
+}
+
+// pair counts distinct members of a covering set (e.g. config x selection shape).
+func (rn *runner) pair(key, member string) {
+	rn.mu.Lock()
+	if !rn.pairs[key+"|"+member] {
+		rn.pairs[key+"|"+member] = true
+		rn.counts[key]++
+	}
+	rn.mu.Unlock()
 }
 
 func (rn *runner) count(key string, n int) {
@@ -277,17 +288,21 @@ func (rn *runner) cli(s *wsState, args ...string) bufx.CLIResult {
 }
 
 func run(r *evid.Run) {
-	r.Rule("hand-written workspaces x {binpb,json,txtpb,yaml} x {none,gzip,zstd} x all subsets of {--exclude-imports," +
+	r.Rule("hand-written workspaces (custom options at every declaration depth, vendored files at well-known-type paths, proto2 legacy features " +
+		"(message sets, weak fields, extension numbers above 2^29-1) at every nesting position, v1/v2/no buf.yaml with and without lint/breaking sections) x {binpb,json,txtpb,yaml} x {none,gzip,zstd} x all subsets of {--exclude-imports," +
 		"--exclude-source-info,--as-file-descriptor-set} (write with `buf build . -o`, read back with `buf build <file> -o -#format=binpb`), " +
 		"all 16 format-to-format transcodings, the same flags applied on the image route, images with injected unknown fields, " +
 		"every packaging of the tree (dir, tar, tar.gz, tar.zst, zip, wrapped archives with strip_components/subdir, `buf export` output), " +
 		"and every selection (P,X) of --path/--exclude-path values with P,X subsets of {each directory, each file}, |P|<=2, |X|<=2, no p inside an x, " +
-		"for build, lint and breaking on the directory and on the image built from it. A case is distinct/non-trivial when its " +
+		"for build, lint and breaking on the directory and on the image built from it; lint/breaking with the workspace's configuration and with a --config menu " +
+		"(rule sets; v1/v2 files without a lint/breaking section, i.e. the version's default; v2 files with only the other section). In the quick tier lint/breaking take the selections " +
+		"{none, one path, one exclude, one exclude inside one path} and the menu is crossed with 'no selection' fully and with one-path selections pairwise (rotating). A case is distinct/non-trivial when its " +
 		"(workspace, encoding, flags) or (workspace, selection with a non-empty proper effect) differs")
-	r.Assume("workspaces are hand-written (20 in the thorough tier, 9 in the quick tier), not generated: custom options (scalar, message-typed, Any-typed, extension-of-extension), proto2 extensions and groups, editions, services, comments, unused/public imports, missing syntax, v1/v2 buf.yaml, buf.work.yaml, named and unnamed modules")
+	r.Assume("workspaces are hand-written (26 in the thorough tier, 13 in the quick tier), not generated: custom options (scalar, message-typed, Any-typed, extension-of-extension), proto2 extensions and groups, editions, services, comments, unused/public imports, missing syntax, v1/v2 buf.yaml, buf.work.yaml, named and unnamed modules")
 	r.Assume("unknown fields cannot be represented in json/txtpb/yaml; the injected-unknown-field images are round-tripped through binpb (none/gzip/zstd) only")
 	r.Assume("lint/breaking are compared on single-module workspaces whose module root is the workspace directory (an image has one lint/breaking config, a multi-module workspace one per module); `buf breaking --against` uses the image of the previous version on both routes because a directory --against combined with --path is rejected by buf itself")
 	r.Assume("`buf export` output has no buf.yaml: it is compared modulo module names, and when exported with imports, modulo is_import of the exported well-known types")
+	r.Assume("an image has one lint and one breaking configuration, the top-level one of the buf.yaml in the working directory (or --config); module-level lint/breaking sections of a v2 buf.yaml are not used on workspaces that are compared")
 	r.Assume("remote modules / commits in image metadata are out of scope here (offline); module names of local modules are covered")
 
 	if dump := os.Getenv("VERIF_C11_DUMP"); dump != "" {
@@ -314,7 +329,7 @@ func run(r *evid.Run) {
 		return
 	}
 	defer pool.close()
-	rn := &runner{r: r, ctx: ctx, pool: pool, scratch: scratch, counts: map[string]int{}}
+	rn := &runner{r: r, ctx: ctx, pool: pool, scratch: scratch, counts: map[string]int{}, pairs: map[string]bool{}}
 
 	defs := workspaces(r.Quick())
 	if only := os.Getenv("VERIF_C11_WS"); only != "" {
@@ -370,6 +385,8 @@ func run(r *evid.Run) {
 		"enc_injected_unknown_ok", "pack_equal", "pack_equal_unnormalized_entry_names", "sel_build_proper_subset", "sel_build_excluded_file_back_as_import",
 		"sel_build_empty_target_both_fail", "sel_lint_with_annotations", "sel_lint_annotations_narrowed", "sel_breaking_with_annotations",
 		"sel_breaking_annotations_narrowed", "api_strip_cases",
+		"sel_lint_v2_default_reports_v2_only_rule", "sel_breaking_v2_default_reports_v2_only_rule", "sel_menu_config_x_selection_shape_pairs",
+		"pack_export_equal_with_vendored_wkt", "enc_roundtrips_ok_legacy_features",
 	} {
 		if counts[k] == 0 && !r.Expired() {
 			r.Incomplete("clause never exercised: " + k)
@@ -706,6 +723,9 @@ func (rn *runner) roundTrip(s *wsState, e encRef, fl flagSet, style string, cust
 		if style != "explicit" {
 			rn.count("enc_roundtrips_ok_style_"+style, 1)
 		}
+		if s.def.Note == "legacy-features" {
+			rn.count("enc_roundtrips_ok_legacy_features", 1)
+		}
 		rn.r.Distinct("rt|" + s.def.Name + "|" + e.format + "|" + e.comp + "|" + fl.String() + "|" + style)
 	}
 	_ = os.Remove(filepath.Join(s.dir, "out", e.file))
@@ -923,6 +943,22 @@ func (s *wsState) selections(maxP, maxX int) []selection {
 	return out
 }
 
+// pathDirHoldsImports reports whether some --path of the selection is a directory below which the full
+// image has a file that is not a local file of the workspace.
+func (s *wsState) pathDirHoldsImports(sel selection) bool {
+	for _, p := range sel.P {
+		if !s.isDir(p) {
+			continue
+		}
+		for f := range s.model.deps {
+			if _, local := s.back[f]; !local && containsPath(p, f) {
+				return true
+			}
+		}
+	}
+	return false
+}
+
 func (s *wsState) isDir(p string) bool { _, ok := s.back[p]; return !ok }
 
 // shape is the structural role of a selection: kind of each --path (d/f), kind of each --exclude-path
@@ -975,31 +1011,110 @@ func (s *wsState) srcSel(sel selection) (paths, excludes []string) {
 	return
 }
 
-var lintMenu = []string{"MINIMAL", "BASIC", "STANDARD", "COMMENTS", "UNARY_RPC"}
-var breakingMenu = []string{"FILE", "PACKAGE", "WIRE_JSON", "WIRE"}
+// checkCfg is one entry of the --config menu: Label goes into distinct keys and counters, Text is the
+// configuration passed with --config on both routes.
+type checkCfg struct {
+	Label string
+	Text  string
+	// RuleSet: a v1 file that selects one named rule set (the menu of the first version of this check)
+	RuleSet bool
+	// V2Default: the config is version v2 and has no section for the kind of check it is used with, so both
+	// routes have to fall back to the v2 default of that kind
+	V2Default bool
+}
+
+func useCfg(kind, rule string) checkCfg {
+	return checkCfg{Label: rule, RuleSet: true, Text: fmt.Sprintf(`{"version":"v1","%s":{"use":["%s"]}}`, kind, rule)}
+}
+
+// The rule-set menu, then the configurations that differ in WHERE the rule set comes from: a version
+// without any section (the default of that version applies), a v2 file that only has the section of the
+// other kind of check, a v2 file with an explicit section.
+var lintMenu = []checkCfg{
+	useCfg("lint", "MINIMAL"), useCfg("lint", "BASIC"), useCfg("lint", "STANDARD"), useCfg("lint", "COMMENTS"), useCfg("lint", "UNARY_RPC"),
+	{Label: "v2-no-sections", Text: `{"version":"v2"}`, V2Default: true},
+	{Label: "v2-breaking-section-only", Text: `{"version":"v2","breaking":{"use":["WIRE"]}}`, V2Default: true},
+	{Label: "v2-lint-section", Text: `{"version":"v2","lint":{"use":["STANDARD"],"except":["PROTOVALIDATE"],"disallow_comment_ignores":true}}`},
+	{Label: "v1-no-sections", Text: `{"version":"v1"}`},
+}
+var breakingMenu = []checkCfg{
+	useCfg("breaking", "FILE"), useCfg("breaking", "PACKAGE"), useCfg("breaking", "WIRE_JSON"), useCfg("breaking", "WIRE"),
+	{Label: "v2-no-sections", Text: `{"version":"v2"}`, V2Default: true},
+	{Label: "v2-lint-section-only", Text: `{"version":"v2","lint":{"use":["MINIMAL"]}}`, V2Default: true},
+	{Label: "v2-breaking-section", Text: `{"version":"v2","breaking":{"use":["FILE"],"except":["FILE_NO_DELETE"]}}`},
+	{Label: "v1-no-sections", Text: `{"version":"v1"}`},
+}
+
+var workspaceCfg = checkCfg{}
+
+// xInsideP reports whether some exclude lies strictly inside some path.
+func xInsideP(sel selection) bool {
+	for _, p := range sel.P {
+		for _, x := range sel.X {
+			if p != x && containsPath(p, x) {
+				return true
+			}
+		}
+	}
+	return false
+}
 
 func (rn *runner) selectionItems(s *wsState) []func() {
 	var items []func()
 	quick := rn.r.Quick()
 	lb := s.v0OK && len(s.def.Modules) == 1 && s.def.Modules[0].Dir == "."
+	// the menu entry a single-path selection gets in the quick tier rotates; the start differs per workspace
+	offset := 0
+	for _, c := range s.def.Name {
+		offset += int(c)
+	}
+	nSingle := 0
 	for i, sel := range s.selections(2, 2) {
 		small := len(sel.P) <= 1 && len(sel.X) <= 1
 		single := len(sel.P)+len(sel.X) <= 1
-		// lint/breaking calls cost ~10x a build call: the quick tier takes |P|<=1,|X|<=1 for them
-		doLB := lb && !sel.same && (!quick || small)
+		if quick && sel.same && !small {
+			// quick tier: "the same path in both flags" only asks for agreement of the routes; with a second,
+			// unrelated path next to it nothing new is asked
+			continue
+		}
+		// lint/breaking calls cost ~15x a build call. Thorough: every selection. Quick: no selection, one path,
+		// one exclude, and one exclude strictly inside one path (a disjoint path/exclude pair selects what the
+		// path alone selects; what the two routes build for it is compared by selectBuild all the same).
+		doLB := lb && !sel.same && (!quick || single || (small && xInsideP(sel)))
 		items = append(items, func() {
 			rn.selectBuild(s, sel, i, small)
 			if doLB {
-				rn.selectCheck(s, sel, "lint", "")
-				rn.selectCheck(s, sel, "breaking", "")
+				rn.selectCheck(s, sel, "lint", workspaceCfg)
+				rn.selectCheck(s, sel, "breaking", workspaceCfg)
 			}
 		})
-		// the rule-set menu (--config on both routes): selections with at most one path in the quick tier
-		if lb && !sel.same && ((quick && single) || (!quick && small)) {
+		if !lb || sel.same {
+			continue
+		}
+		// the --config menu on both routes. Thorough: rule sets x selections with |P|<=1,|X|<=1, the other entries
+		// x selections with at most one path. Quick: the whole
+		// menu without a selection; every one-path selection with one entry, rotating through both menus, so
+		// that config x kind of selection is covered pairwise over the workspaces instead of as a product.
+		switch {
+		case !quick && small, quick && len(sel.P)+len(sel.X) == 0:
 			for _, c := range lintMenu {
-				items = append(items, func() { rn.selectCheck(s, sel, "lint", c) })
+				if single || c.RuleSet {
+					items = append(items, func() { rn.selectCheck(s, sel, "lint", c) })
+				}
 			}
 			for _, c := range breakingMenu {
+				if single || c.RuleSet {
+					items = append(items, func() { rn.selectCheck(s, sel, "breaking", c) })
+				}
+			}
+		case quick && single:
+			k := nSingle + offset
+			nSingle++
+			if k%2 == 0 {
+				c := lintMenu[(k/2)%len(lintMenu)]
+				items = append(items, func() { rn.selectCheck(s, sel, "lint", c) })
+			} else {
+				c := breakingMenu[(k/2)%len(breakingMenu)]
 				items = append(items, func() { rn.selectCheck(s, sel, "breaking", c) })
 			}
 		}
@@ -1036,6 +1151,14 @@ func (rn *runner) selectBuild(s *wsState, sel selection, idx int, small bool) {
 	sp, sx := s.srcSel(sel)
 	shape := s.shape(sel)
 	rank := len(sel.P) + len(sel.X)
+	// A --path directory that, in the image, also holds files that are not local (imports that live in the
+	// same directory as local files: a vendored google/protobuf next to the implicit well-known types) is a
+	// structural role of its own: its failures get their own signature groups.
+	sb := "select-build"
+	if s.pathDirHoldsImports(sel) {
+		sb = "select-build-path-dir-holds-imports"
+		rn.count("sel_build_path_dir_holds_imports", 1)
+	}
 	routes := []struct {
 		name string
 		out  buildOutcome
@@ -1070,7 +1193,7 @@ func (rn *runner) selectBuild(s *wsState, sel selection, idx int, small bool) {
 		for _, rt := range routes[1:] {
 			if (rt.out.exit == 0) != (src.exit == 0) {
 				ci.Stderr = src.err + " | " + rt.out.err
-				rn.fail("select-build/same-path-in-both-flags/exit-"+rt.name, rank, shape, nil, fmt.Sprintf("source route exits %d, %s route exits %d", src.exit, rt.name, rt.out.exit), ci)
+				rn.fail(sb+"/same-path-in-both-flags/exit-"+rt.name, rank, shape, nil, fmt.Sprintf("source route exits %d, %s route exits %d", src.exit, rt.name, rt.out.exit), ci)
 			}
 		}
 		rn.count("sel_build_same_path_both_flags", 1)
@@ -1083,7 +1206,7 @@ func (rn *runner) selectBuild(s *wsState, sel selection, idx int, small bool) {
 			if rt.out.exit == 0 {
 				ok = false
 				ci.Detail = "the selection targets no file"
-				rn.fail("select-build/empty-target/"+rt.name+"-succeeds", rank, shape, nil,
+				rn.fail(sb+"/empty-target/"+rt.name+"-succeeds", rank, shape, nil,
 					fmt.Sprintf("selection targets no file; %s route exits 0 with files %v (source route exit %d)", rt.name, names(rt.out.img), src.exit), ci)
 			}
 		}
@@ -1106,7 +1229,7 @@ func (rn *runner) selectBuild(s *wsState, sel selection, idx int, small bool) {
 				continue
 			}
 			ci.Stderr = rt.out.err
-			rn.fail("select-build/"+rt.name+"-route/exit", rank, shape, nil,
+			rn.fail(sb+"/"+rt.name+"-route/exit", rank, shape, nil,
 				fmt.Sprintf("selection with targets %v: %s route exits %d: %s", targets, rt.name, rt.out.exit, clip(rt.out.err, 300)), ci)
 			continue
 		}
@@ -1119,7 +1242,7 @@ func (rn *runner) selectBuild(s *wsState, sel selection, idx int, small bool) {
 			for _, k := range kinds {
 				allOK = false
 				ci.Detail = detail
-				rn.fail("select-build/"+rt.name+"-vs-directory/"+k, rank, shape, nil,
+				rn.fail(sb+"/"+rt.name+"-vs-directory/"+k, rank, shape, nil,
 					fmt.Sprintf("%s input with the same --path/--exclude-path differs from the directory input: %s", rt.name, detail), ci)
 			}
 			continue
@@ -1132,12 +1255,12 @@ func (rn *runner) selectBuild(s *wsState, sel selection, idx int, small bool) {
 			if rt.name == "image-yaml-gz" {
 				encs = []string{"yaml"}
 			}
-			rn.failEnc(encs, k, "select-build/"+rt.name+"-route-vs-model/"+k, rank, shape,
+			rn.failEnc(encs, k, sb+"/"+rt.name+"-route-vs-model/"+k, rank, shape,
 				fmt.Sprintf("%s route differs from the targeting rule applied to the full image (targets %v + import closure as imports, every file as in the full image): %s", rt.name, targets, detail), ci)
 		}
 		if ok, why := dagOrdered(rt.out.img); !ok {
 			allOK = false
-			rn.fail("select-build/"+rt.name+"-route/file-order", rank, shape, nil, why, ci)
+			rn.fail(sb+"/"+rt.name+"-route/file-order", rank, shape, nil, why, ci)
 		}
 	}
 	// Order of files: both routes must give a valid DAG order (checked above). Whether they give the *same*
@@ -1223,12 +1346,9 @@ func parseAnnotations(stdout string) ([]string, error) {
 	return out, nil
 }
 
-func checkConfig(kind, rule string) string {
-	return fmt.Sprintf(`{"version":"v1","%s":{"use":["%s"]}}`, kind, rule)
-}
-
 // selectCheck runs lint or breaking on the directory and on the image with one selection.
-func (rn *runner) selectCheck(s *wsState, sel selection, kind, rule string) {
+func (rn *runner) selectCheck(s *wsState, sel selection, kind string, cfgEntry checkCfg) {
+	rule := cfgEntry.Label
 	sp, sx := s.srcSel(sel)
 	mk := func(input string, paths, excludes []string) []string {
 		a := []string{kind, input}
@@ -1238,7 +1358,7 @@ func (rn *runner) selectCheck(s *wsState, sel selection, kind, rule string) {
 		a = append(a, selArgs(paths, excludes)...)
 		a = append(a, "--error-format=json")
 		if rule != "" {
-			a = append(a, "--config", checkConfig(kind, rule))
+			a = append(a, "--config", cfgEntry.Text)
 		}
 		return a
 	}
@@ -1277,6 +1397,23 @@ func (rn *runner) selectCheck(s *wsState, sel selection, kind, rule string) {
 		return
 	}
 	rn.count("sel_"+kind+"_agree", 1)
+	if rule != "" {
+		rn.pair("sel_menu_config_x_selection_shape_pairs", kind+"|"+rule+"|"+shape)
+	}
+	// which default applies: a v2 configuration without a section for this kind of check
+	if cfgEntry.V2Default || (rule == "" && s.def.Note == "default-config") {
+		if len(aa) > 0 {
+			rn.count("sel_"+kind+"_v2_default_with_annotations", 1)
+		}
+		for _, l := range aa {
+			// rules that are in the v2 default set and not in the v1 default set
+			if strings.Contains(l, " FIELD_NOT_REQUIRED ") || strings.Contains(l, " PACKAGE_NO_IMPORT_CYCLE ") ||
+				strings.Contains(l, " FIELD_SAME_CARDINALITY ") || strings.Contains(l, " FIELD_SAME_DEFAULT ") {
+				rn.count("sel_"+kind+"_v2_default_reports_v2_only_rule", 1)
+				break
+			}
+		}
+	}
 	if len(aa) > 0 {
 		rn.count("sel_"+kind+"_with_annotations", 1)
 		rn.r.Distinct("chk|" + kind + "|" + rule + "|" + s.def.Name + "|" + strings.Join(sel.P, ",") + "|" + strings.Join(sel.X, ","))
